@@ -80,6 +80,28 @@ def candidate_joint_actions(tier, seed):
     return out
 
 
+class _Direct:
+    """result of a direct apply_actions call, shaped like a triplet"""
+
+    def __init__(self, next_state, n):
+        self.next_state, self.joint_action = next_state, [None] * n
+
+
+def _apply_joint(world, state, slots, allow, direct):
+    """through the exporter (which strips the nop entries before it calls apply_actions), or apply_actions called directly
+    with the joint action as it stands, nop entries included"""
+    from pddl_plus_parser.models import ActionCall
+    from pddl_plus_parser.multi_agent.common import apply_actions
+    from pddl_plus_parser.multi_agent import MultiAgentTrajectoryExporter
+    if not direct:
+        return MultiAgentTrajectoryExporter(world.domain).create_multi_agent_triplet(
+            state, joint_line(slots), world.objects, allow_inapplicable_actions=allow)
+    calls = [ActionCall(name="nop", grounded_parameters=[]) if s is None else ActionCall(name=s[0], grounded_parameters=list(s[1]))
+             for s in slots]
+    nxt = apply_actions(world.domain, state, calls, allow_inapplicable_actions=allow, problem_objects=world.objects)
+    return _Direct(nxt, len(slots))
+
+
 def run_joint(task):
     from pddl_plus_parser.models import ActionCall, Operator
     from pddl_plus_parser.multi_agent.common import apply_actions
@@ -120,11 +142,8 @@ def run_joint(task):
             world = world_holder[0]
             state, keys = seqsem.symbolic_state(world, comp, sym_atoms, fl_all)
             before = lib.state_digest(state)
-            exporter = MultiAgentTrajectoryExporter(world.domain)
-            line = joint_line(slots)
             try:
-                trip = exporter.create_multi_agent_triplet(state, line, world.objects,
-                                                           allow_inapplicable_actions=(mode == "allowed"))
+                trip = _apply_joint(world, state, slots, mode == "allowed", task.get("direct"))
                 out = ("ok", trip.next_state, len(trip.joint_action))
             except ValueError as e:
                 out = ("refused", str(e), 0)
@@ -217,8 +236,7 @@ def replay_joint(task, atoms, fls):
     mode = task["mode"]
     out = {"expected": {"all_members_applicable": all_pre0, "non_interfering": nonint}}
     try:
-        trip = MultiAgentTrajectoryExporter(world.domain).create_multi_agent_triplet(
-            state, joint_line(slots), world.objects, allow_inapplicable_actions=(mode == "allowed"))
+        trip = _apply_joint(world, state, slots, mode == "allowed", task.get("direct"))
         got_atoms = lib.state_atoms(trip.next_state)
         inv = {v: k for k, v in keys.items()}
         got_fl = {inv.get(k, k): f.value for k, f in trip.next_state.state_fluents.items()}
@@ -447,6 +465,11 @@ def tasks_for(tier, seed):
             orders = perms if tier == "thorough" else [perms[0], perms[-1]]
         tasks.append({"kind": "joint", "mode": "joint", "slots": slots, "chain_orders": [list(o) for o in orders],
                       "cap": 9 if tier == "quick" else 12, "max_paths": 3000 if tier == "quick" else 30000})
+        if None in slots and k >= 1 and (len(tasks) % 2 == 0 or tier == "thorough"):
+            # apply_actions called directly, the nop entries still in the list (leading, in between, trailing)
+            tasks.append({"kind": "joint", "mode": "joint", "slots": slots, "chain_orders": [], "direct": True,
+                          "cap": 9 if tier == "quick" else 12, "max_paths": 3000 if tier == "quick" else 30000})
+            tasks.append({"kind": "joint", "mode": "refuse", "slots": slots, "direct": True, "cap": 9 if tier == "quick" else 12})
         if k >= 1:
             tasks.append({"kind": "joint", "mode": "refuse", "slots": slots, "cap": 9 if tier == "quick" else 12})
             tasks.append({"kind": "joint", "mode": "allowed", "slots": slots, "cap": 9 if tier == "quick" else 12})
